@@ -1,2 +1,3 @@
 import OASProofs.Lemmas.Basic
 import OASProofs.Props.C11
+import OASProofs.Props.C16
